@@ -58,6 +58,22 @@ def judge(case):
                                    original=[tr["J"][k], tr["m"][k + 1] if k + 1 < tr["n"] else None],
                                    restarted=[t2["J"][0], t2["m"][1]]))
                 break
+    # the same Pervaporation / membrane objects used for a different run first (other area, step, feed, mode) must then
+    # reproduce this run bit for bit (guards against per-object state keyed too coarsely); done on the longest runs only
+    if not v and setup.steps >= 6:
+        s3 = traces.Setup(case)
+        warm = traces.U.make_conditions(s3.mixture, s3.area * 3.0, s3.t0, s3.amount * 0.5, min(0.97, s3.x0 * 1.07 + 0.01), "weight",
+                                        "vac" if s3.mode != "vac" else ("p", 0.3), "none" if s3.kind in traces.ISO else s3.prog)
+        s3.run(steps=2, conditions=warm, dt=s3.dt * 0.5)
+        st3, pm3 = s3.run()
+        if st3 != "ok":
+            v.append(core.viol("C01/depends_on_earlier_run/" + setup.kind, "the run returns on fresh objects but raises %r when the same objects modelled another run first" % (pm3,)))
+        else:
+            t3 = traces.extract(pm3)
+            if traces.trace_digest(t3) != traces.trace_digest(tr):
+                v.append(core.viol("C01/depends_on_earlier_run/" + setup.kind, "the trace differs when the same Pervaporation/membrane objects modelled another run first",
+                                   fresh=[tr["m"][:3], tr["J"][:2]], reused=[t3["m"][:3], t3["J"][:2]]))
+        restarts += 1
     return core.result("returned", nontrivial=True, digest=traces.trace_digest(tr), viol=v, states=tr["n"] + restarts * 2,
                        transitions=max(tr["n"] - 1, 0) + restarts, traces=1 + restarts, restarts=restarts,
                        sample={"m": tr["m"][:3], "x": tr["x"][:3], "J": tr["J"][:2]})
